@@ -26,7 +26,7 @@ package searcher
 //@     boolApart(s) && implies(s.initialized, boolCurrent(s))
 
 //@ func BooleanSearcher.initSearchers
-//@   props C08
+//@   props C08 C02
 //@   mode int
 //@   requires s != nil && ctx != nil && ctx.DocumentMatchPool != nil && !s.initialized && boolInv(s)
 //@   modifies fields(BooleanSearcher), fields(search.DocumentMatch), search.DocumentMatchPool.avail, mem(*search.DocumentMatch), search.Searcher.started, search.Searcher.last, search.Searcher.done
@@ -42,7 +42,7 @@ package searcher
 
 // Advance: the children behind the target are advanced to it, then Next aligns them.
 //@ func BooleanSearcher.Advance
-//@   props C08
+//@   props C08 C02
 //@   mode int
 //@   requires s != nil && ctx != nil && ctx.DocumentMatchPool != nil && boolInv(s)
 //@   modifies fields(BooleanSearcher), fields(search.DocumentMatch), search.DocumentMatchPool.avail, mem(*search.DocumentMatch), search.Searcher.started, search.Searcher.last, search.Searcher.done
